@@ -51,6 +51,10 @@ type c11Case struct {
 	// round 5: further CORS instances on the path of the same request, inside the one described above (which is
 	// installed with e.Use / e.Pre): each at e.Use level (At 0), on the route's group (At 1) or on the route (At 2)
 	Stack []c11Layer `json:"stack,omitempty"`
+
+	// round 6: further request headers that a short-cut might key on (name, value); the name `Host` sets the
+	// request's Host.  None of them is consulted by the middleware.
+	Decoy [][2]string `json:"decoy,omitempty"`
 }
 
 // one more CORS instance (same meaning of the fields as in c11Case)
@@ -279,7 +283,7 @@ func c11Glob(p, s string) bool {
 }
 
 // syntactically valid origin in the sense of the property: printable ASCII, scheme "://" host[:port],
-// one "://", scheme without ':' and host part without '/', host[:port] at most 253 bytes
+// one "://", scheme without ':' and host part without '/', host (without an explicit port) at most 253 bytes
 func c11ValidOrigin(o string) bool {
 	for i := 0; i < len(o); i++ {
 		if o[i] <= 0x20 || o[i] >= 0x7f {
@@ -291,7 +295,12 @@ func c11ValidOrigin(o string) bool {
 		return false
 	}
 	scheme, host := o[:i], o[i+3:]
-	if strings.ContainsAny(scheme, ":/") || host == "" || strings.Contains(host, "/") || len(host) > 253 {
+	// the 253-byte limit is the host's; an explicit port does not count towards it
+	name := host
+	if k := strings.LastIndex(host, ":"); k >= 0 && k+1 < len(host) && strings.Trim(host[k+1:], "0123456789") == "" {
+		name = host[:k]
+	}
+	if strings.ContainsAny(scheme, ":/") || host == "" || strings.Contains(host, "/") || len(name) > 253 {
 		return false
 	}
 	return true
@@ -426,6 +435,16 @@ func c11Run(ci any) (res Result) {
 		return req
 	}
 	req := mkReq(c.Method, c.Origin)
+	for _, d := range c.Decoy {
+		switch k := http.CanonicalHeaderKey(d[0]); k {
+		case "Host":
+			req.Host = d[1]
+		case "Origin", "Access-Control-Request-Headers", c11SkipHeader:
+			// not decoys
+		default:
+			req.Header[k] = append(req.Header[k], d[1])
+		}
+	}
 	for _, v := range c.ReqHeaders {
 		req.Header["Access-Control-Request-Headers"] = append(req.Header["Access-Control-Request-Headers"], v)
 	}
@@ -457,11 +476,7 @@ func c11Run(ci any) (res Result) {
 		return false
 	}()
 
-	reqHdr := ""
-	if len(c.ReqHeaders) > 0 {
-		reqHdr = c.ReqHeaders[0]
-	}
-	ops := []string{wBool(preflight), wStrs(c.Origin), wStr(reqHdr), wInt(n)}
+	ops := append(c13HeadOps(req), wInt(n))
 	for i, l := range layers {
 		ops = append(ops, c11LayerOps(l, skipped[i], routerAllow[i], origin))
 	}
@@ -657,6 +672,9 @@ func c11Run(ci any) (res Result) {
 	}
 	if len(c.Before) > 0 {
 		res.Tags = append(res.Tags, "second-request-through-instance")
+	}
+	for _, d := range c.Decoy {
+		res.Tags = append(res.Tags, "decoy:"+http.CanonicalHeaderKey(d[0]))
 	}
 	if n > 1 {
 		res.Tags = append(res.Tags, fmt.Sprintf("stack:%d-instances", n))
@@ -996,6 +1014,17 @@ func c11GenStack(r *rand.Rand, base *c11Case, allow []string) {
 }
 
 // per request: the parts that vary inside one configuration
+// request headers a short-cut might key on: the marks of a "real" preflight, of a same-origin / same-site request, of an
+// authenticated or internal one
+var c11DecoyPool = [][2]string{
+	{"Access-Control-Request-Method", "GET"}, {"Access-Control-Request-Method", "DELETE"}, {"Access-Control-Request-Method", ""},
+	{"Sec-Fetch-Site", "same-origin"}, {"Sec-Fetch-Site", "same-site"}, {"Sec-Fetch-Site", "none"}, {"Sec-Fetch-Mode", "no-cors"}, {"Sec-Fetch-Mode", "navigate"},
+	{"Sec-Fetch-Dest", "document"}, {"X-Requested-With", "XMLHttpRequest"}, {"Authorization", "Bearer tok"}, {"Cookie", "session=abc"},
+	{"Upgrade", "websocket"}, {"Connection", "Upgrade"}, {"Referer", "https://app.example.com/"}, {"X-Forwarded-Host", "app.example.com"},
+	{"X-Forwarded-Proto", "https"}, {"X-Forwarded-For", "127.0.0.1"}, {"User-Agent", "curl/8.0"}, {"Content-Type", "text/plain"},
+	{"Content-Type", "application/json"}, {"Access-Control-Allow-Origin", "*"}, {"Vary", "Origin"}, {"X-Http-Method-Override", "GET"},
+}
+
 func c11GenRequest(r *rand.Rand, c *c11Case) {
 	if c.Skipper == 1 || r.Intn(40) == 0 {
 		c.Skip = r.Intn(3) == 0
@@ -1009,6 +1038,11 @@ func c11GenRequest(r *rand.Rand, c *c11Case) {
 	switch r.Intn(6) {
 	case 0:
 		c.ReqHeaders = c11Pick(r, [][]string{{"X-Req, Content-Type"}, {"", "X"}, {"A", "B"}, {""}, {"x-custom"}})
+	}
+	if r.Intn(3) == 0 {
+		for k := 1 + r.Intn(3); k > 0; k-- {
+			c.Decoy = append(c.Decoy, c11Pick(r, c11DecoyPool))
+		}
 	}
 	if r.Intn(10) == 0 {
 		for k := 1 + r.Intn(2); k > 0; k-- {
@@ -1082,7 +1116,40 @@ func c11Derive(r *rand.Rand, entry string) (string, string) {
 		host = inst[i+3:]
 	}
 	scheme := strings.TrimSuffix(inst, "://"+host)
-	switch r.Intn(22) {
+	switch r.Intn(24) {
+	case 21, 22: // other spellings of the same origin that a normalising comparison would accept
+		switch r.Intn(12) {
+		case 0:
+			if scheme == "https" {
+				return inst + ":443", "noncanonical-spelling"
+			}
+			return inst + ":80", "noncanonical-spelling"
+		case 1:
+			return inst + "/", "noncanonical-spelling"
+		case 2:
+			return inst + ".", "noncanonical-spelling"
+		case 3:
+			return c11Pick(r, []string{" ", "\t"}) + inst, "noncanonical-spelling"
+		case 4:
+			return inst + c11Pick(r, []string{" ", "\t", "\r"}), "noncanonical-spelling"
+		case 5:
+			return scheme + "://" + strings.ToUpper(host), "noncanonical-spelling"
+		case 6:
+			return strings.ToUpper(scheme) + "://" + host, "noncanonical-spelling"
+		case 7:
+			return inst + ", " + inst, "noncanonical-spelling"
+		case 8:
+			if len(host) > 0 {
+				i := r.Intn(len(host))
+				return scheme + "://" + host[:i] + fmt.Sprintf("%%%02x", host[i]) + host[i+1:], "noncanonical-spelling"
+			}
+		case 9:
+			return inst + c11Pick(r, []string{"#", "?", "/.", "//", ":"}), "noncanonical-spelling"
+		case 10:
+			return scheme + "://" + host + ":0" + c11Pick(r, []string{"80", "443", "8080"}), "noncanonical-spelling"
+		default:
+			return scheme + ":" + host, "noncanonical-spelling"
+		}
 	case 20: // the host's labels in reverse order (a matcher that walks one side the wrong way round accepts these)
 		ls := strings.Split(host, ".")
 		if len(ls) > 1 {
@@ -1140,7 +1207,10 @@ func c11Derive(r *rand.Rand, entry string) (string, string) {
 	case 8:
 		return strings.Replace(inst, "://", c11Pick(r, []string{":/", "//", ":", "", ":///", "://:"}), 1), "separator-mangled"
 	case 9:
-		n := c11Pick(r, []int{252, 253, 254, 255, 300})
+		n := c11Pick(r, []int{249, 252, 253, 254, 255, 300})
+		if r.Intn(2) == 0 && !strings.Contains(host, ":") {
+			return c11PadHost(inst, n) + c11Pick(r, []string{":8443", ":80", ":1"}), "long-host-with-port"
+		}
 		return c11PadHost(inst, n), "long-host"
 	case 10: // total length around 261
 		n := c11Pick(r, []int{260, 261, 262}) - len(scheme) - 3
@@ -1242,6 +1312,12 @@ func c11Gen(r *rand.Rand, tier string) []any {
 				c.Note = "empty-origin"
 			default:
 				c.Origin = []string{o}
+			}
+			if r.Intn(12) == 0 {
+				// the request's Host equals the Origin's host: "same origin" as a short-cut would see it
+				if i := strings.Index(o, "://"); i >= 0 {
+					c.Decoy = append(c.Decoy, [2]string{"Host", o[i+3:]})
+				}
 			}
 			if len(c.Before) > 0 && r.Intn(2) == 0 {
 				// earlier requests through the same instance that resemble this one
@@ -1381,6 +1457,10 @@ func c11Shrink(ci any) []any {
 	if len(c.Before) > 0 {
 		simpler(func(d *c11Case) { d.Before = nil })
 	}
+	for i := range c.Decoy {
+		i := i
+		simpler(func(d *c11Case) { d.Decoy = append(append([][2]string(nil), c.Decoy[:i]...), c.Decoy[i+1:]...) })
+	}
 	cpStack := func(d *c11Case) {
 		d.Stack = append([]c11Layer(nil), c.Stack...)
 		for i := range d.Stack {
@@ -1451,15 +1531,63 @@ func c11Shrink(ci any) []any {
 
 func c11Known(ci any, res Result, modelObs string) string { return "" }
 
+// c11Mutate: neighbours of a case on which model and code disagree that may turn the disagreement into a failure of the
+// property itself: a simple request instead of a preflight, credentials on, the same request once or twice before
+func c11Mutate(r *rand.Rand, ci any) []any {
+	c := ci.(*c11Case)
+	var out []any
+	v := func(f func(d *c11Case)) {
+		d := *c
+		d.Note = ""
+		f(&d)
+		out = append(out, &d)
+	}
+	v(func(d *c11Case) { d.Method = "GET" })
+	v(func(d *c11Case) { d.Method, d.Creds = "GET", true })
+	// a configuration that allows (next to) nothing: whatever lets this request through is then a violation
+	strict := func(d *c11Case) {
+		d.Ctor, d.Func, d.Stack, d.Skipper, d.Unsafe = 0, nil, nil, 0, false
+		d.Allow = []string{"https://only.allowed.example"}
+		if len(d.Origin) == 0 || !c11ValidOrigin(d.Origin[0]) {
+			d.Origin = []string{"https://evil.example"}
+		}
+	}
+	v(func(d *c11Case) { strict(d); d.Method = "GET" })
+	v(func(d *c11Case) { strict(d); d.Method, d.Creds = "POST", true })
+	v(func(d *c11Case) {
+		strict(d)
+		d.Method = "GET"
+		for i := range d.Decoy {
+			if d.Decoy[i][0] == "Host" {
+				o := d.Origin[0]
+				d.Decoy = append([][2]string(nil), d.Decoy...)
+				d.Decoy[i][1] = o[strings.Index(o, "://")+3:]
+			}
+		}
+	})
+	if len(c.Origin) > 0 {
+		o := c.Origin[0]
+		v(func(d *c11Case) { d.Method, d.Before = "GET", []string{o} })
+		v(func(d *c11Case) { d.Method, d.Before = "GET", []string{o, o} })
+		for _, a := range c.Allow {
+			if x := c11Fill(r, a, false); x != "" {
+				v(func(d *c11Case) { d.Method, d.Before = "GET", []string{x} })
+			}
+		}
+	}
+	return out
+}
+
 func init() {
 	register(&Prop{
 		ID:             "C11",
-		Rule:           "allow-lists of 0-5 entries built from base origins: literals, `*`, sub-domain wildcard, `*` label in the middle / at the end, partial-label `*`/`?`, several wildcards, wildcard in scheme / port, regexp metacharacters, degenerate entries, lists of nothing but blank entries, entries with bytes that are not UTF-8 (do not compile); per list ~60 requests whose Origin is derived from one of ITS entries (or of the origins its AllowOriginFunc knows): instances (wildcards filled with labels, dotted runs, empty) and look-alikes (`?` filled with zero or two characters, suffix / prefix extension, left labels replaced, dot replaced, label inserted / dropped, other scheme, mangled `://`, hosts of 252-255 and origins of 260-262 bytes, the entry text itself, case change, char dropped / inserted / replaced, port, userinfo) x GET/POST/PUT/HEAD/OPTIONS x credentials / unsafe-wildcard flags (all four combinations). Round 4, per list: CORS() vs CORSWithConfig, custom Skipper (skips requests carrying a marker header), AllowOriginFunc as a table (allow / refuse / error with (false|true, err)), AllowMethods / AllowHeaders / ExposeHeaders (nil, empty, blank items) / MaxAge (0, positive, negative), routes with or without an OPTIONS handler (router-provided Allow in the context), e.Use or e.Pre; per request: skip marker, a middleware in front that replaces the context's Allow value by a string / an empty string / a non-string, Access-Control-Request-Headers, 0-2 earlier requests through the same instance (unrelated or resembling this one); plus one probe per list deciding whether an entry of valid / truncated / overlong / surrogate / out-of-range UTF-8 compiled. Round 5: for 1/5 of the lists 1-3 further CORS instances on the path of the same request (e.Use, the route's group, the route; twice on one route): permissive outside (CORS(), `*`, wide patterns) with a strict one inside, strict outside with a permissive one inside, the same list twice, narrowed copies, unrelated lists, AllowOriginFunc instances, per-instance Skipper; the context's Allow value is recorded in front of every instance; plus the `labels-reversed` look-alike. Oracle decides Allowed with its own glob matcher (no regexp), AllowOriginFunc cases by its table and call log. With several instances the oracle judges each one on its own: the handler ran => every unskipped instance allows the Origin; a grant in the response => some instance that looked at the request allows it. Non-trivial = (the allow-list has a wildcard pattern or AllowOriginFunc is set) and the request has an Origin; distinct = distinct model op lines",
+		Rule:           "allow-lists of 0-5 entries built from base origins: literals, `*`, sub-domain wildcard, `*` label in the middle / at the end, partial-label `*`/`?`, several wildcards, wildcard in scheme / port, regexp metacharacters, degenerate entries, lists of nothing but blank entries, entries with bytes that are not UTF-8 (do not compile); per list ~60 requests whose Origin is derived from one of ITS entries (or of the origins its AllowOriginFunc knows): instances (wildcards filled with labels, dotted runs, empty) and look-alikes (`?` filled with zero or two characters, suffix / prefix extension, left labels replaced, dot replaced, label inserted / dropped, other scheme, mangled `://`, hosts of 252-255 and origins of 260-262 bytes, the entry text itself, case change, char dropped / inserted / replaced, port, userinfo) x GET/POST/PUT/HEAD/OPTIONS x credentials / unsafe-wildcard flags (all four combinations). Round 4, per list: CORS() vs CORSWithConfig, custom Skipper (skips requests carrying a marker header), AllowOriginFunc as a table (allow / refuse / error with (false|true, err)), AllowMethods / AllowHeaders / ExposeHeaders (nil, empty, blank items) / MaxAge (0, positive, negative), routes with or without an OPTIONS handler (router-provided Allow in the context), e.Use or e.Pre; per request: skip marker, a middleware in front that replaces the context's Allow value by a string / an empty string / a non-string, Access-Control-Request-Headers, 0-2 earlier requests through the same instance (unrelated or resembling this one); plus one probe per list deciding whether an entry of valid / truncated / overlong / surrogate / out-of-range UTF-8 compiled. Round 5: for 1/5 of the lists 1-3 further CORS instances on the path of the same request (e.Use, the route's group, the route; twice on one route): permissive outside (CORS(), `*`, wide patterns) with a strict one inside, strict outside with a permissive one inside, the same list twice, narrowed copies, unrelated lists, AllowOriginFunc instances, per-instance Skipper; the context's Allow value is recorded in front of every instance; plus the `labels-reversed` look-alike. Round 6: 1/3 of the requests carry 1-3 decoy headers a short-cut might key on (Access-Control-Request-Method present / empty, Sec-Fetch-Site same-origin, Sec-Fetch-Mode, X-Requested-With, Authorization, Cookie, Upgrade, X-Forwarded-*, request-side Access-Control-Allow-Origin / Vary, ...), 1/12 a Host equal to the Origin's host; the whole request head (method, every header line) is the model's input; look-alikes `noncanonical-spelling` (default port :443 / :80, trailing slash or dot, blanks around, upper-case host or scheme, comma-joined, a percent-encoded host byte, `#` / `?` / `:` appended, leading-zero port, `scheme:host`) and `long-host-with-port` (host of 249-300 bytes plus a port). Oracle decides Allowed with its own glob matcher (no regexp), AllowOriginFunc cases by its table and call log. With several instances the oracle judges each one on its own: the handler ran => every unskipped instance allows the Origin; a grant in the response => some instance that looked at the request allows it. Non-trivial = (the allow-list has a wildcard pattern or AllowOriginFunc is set) and the request has an Origin; distinct = distinct model op lines",
 		New:            func() any { return &c11Case{} },
 		Gen:            c11Gen,
 		Run:            c11Run,
 		Shrink:         c11Shrink,
 		Known:          c11Known,
+		Mutate:         c11Mutate,
 		Correspondence: "C11.serveStack over C11.serveFull (lean/EchoModel/C11.lean: glob, validUtf8, matchScheme, matchSubdomain, allowLoop, decideOrigin, preflight / simple-request headers) vs middleware.CORS / CORSWithConfig + matchSubdomain + regexp",
 	})
 }
